@@ -65,6 +65,8 @@ func initProperties() {
 			Decides: "the clause `a path that does not fit the value's shape or the descriptor yields an error result, never a panic` and error propagation of the read walkers: descriptor lookups are nil-checked before use (NILLOOKUP), no fallible call's error is dropped or swallowed (DROPERR, ERRSWALLOW), size-guarded cursor functions get positive sizes (PANICARG), container counts are bounded (ALLOCBOUND), every search loop consumes (LOOPPROGRESS) and the unknown-field branches skip (UNKNOWNSKIP) — over package thrift/generic and the thrift skip/readers it uses.",
 			NotDec:  "that offsets, spans and values returned are the right ones (chained skip arithmetic is value-level); typed/untyped agreement; effect of each read option.",
 			Uses: uses(
+				use("NEXTSTOREBACK", "Children/Load store the refilled children back on every success path", thriftGeneric),
+				use("DEPTHBUDGET", "the skip depth budget counts nesting levels, not elements", anyOf(thriftGeneric, thriftPkg)),
 				use("RAWWIDTH", "scalar casts of a generic node are bounded by the node's length", nil),
 				use("UNKNOWNBREAK", "an unknown field does not end the field loop", thriftGeneric),
 				use("RANGECOPYWRITE", "reset loops write the elements, not per-iteration copies", thriftGeneric),
@@ -99,6 +101,7 @@ func initProperties() {
 			Decides: "option plumbing into the native FSM (FLAGSYNC: every conv.Option that affects j2t reaches its own flag bit, flags recomputed after every options write), the native status is tested and handled (NATIVERET), and for the portable converter (config P): every JSON-kind case of doRecurse ends in a return (CASEEXIT), the portable code reads the same options the flag table maps (OPTAGREE), no error dropped (DROPERR), thrift type switch exhaustive (KINDEXH).",
 			NotDec:  "everything inside the native FSM (opaque machine code): number/escape handling, resumption after ERR_OOM_*, buffer-capacity independence; value equality of the output.",
 			Uses: uses(
+				use("TRUNCALLPATHS", "the field cache is emptied on every success exit of the fallback handler", inPkgs("conv/j2t")),
 				use("ROOTSTRUCTNIL", "a non-struct root descriptor is not dereferenced as a struct", inPkgs("conv/j2t")),
 				use("FLAGSYNC", "options reach flags", nil),
 				use("NATIVERET", "native status handled", inPkgs("conv/j2t")),
@@ -122,6 +125,8 @@ func initProperties() {
 			Decides: "balanced `{}`/`[]` on every success path of the t2j walkers (JSONPAIR — a necessary condition of `never malformed JSON with a nil error`), member keys come from one FieldDescriptor accessor everywhere (KEYSRC), thrift type switches are exhaustive (KINDEXH), unknown fields are an error exactly when disallowed and are otherwise skipped (NEGPOLARITY, UNKNOWNSKIP), no error dropped (DROPERR), loops consume (LOOPPROGRESS).",
 			NotDec:  "comma placement, numeric and string exactness (value-level).",
 			Uses: uses(
+				use("BYTEOPT", "byte keys and byte values honour ByteAsUint8 alike", nil),
+				use("DEFAULTARM", "an IDL default matters for optional fields only", thriftPkg),
 				use("ROOTSTRUCTNIL", "a non-struct root descriptor is not dereferenced as a struct", inPkgs("conv/t2j")),
 				use("UNKNOWNBREAK", "an unknown field does not end the field loop", inPkgs("conv/t2j", "thrift")),
 				use("JSONPAIR", "balanced JSON", inPkgs("conv/t2j")),
@@ -166,6 +171,11 @@ func initProperties() {
 			Decides: "the by-id slot threshold is compared identically at load, lookup and store (THRESHAGREE), PathNode.marshal covers every thrift type and writes headers before elements (KINDEXH, HDRFIRST), child-slice growth is bounded by the input (ALLOCBOUND), Marshal copies out of the pooled buffer (POOLESCAPE).",
 			NotDec:  "losslessness itself (byte equality of Marshal(Load(x)) with x for every x); that edits through SetField/SetByStr land in the slot a later lookup consults.",
 			Uses: uses(
+				use("HDRKEEP", "a loaded container remembers the element/key type of its header", thriftGeneric),
+				use("BOUNDAGREE", "skipping accepts a value that ends exactly at the end of the buffer", thriftPkg),
+				use("SLOTID", "the by-id fast path verifies the id held by the slot", thriftGeneric),
+				use("NEXTSTOREBACK", "a refill stores the children back on every success path", thriftGeneric),
+				use("SETSLOT", "a replaced child loses the old value's children; an empty by-id slot gets its path", thriftGeneric),
 				use("SPARSECLEAR", "a re-used children array starts empty where a sparse store skips or probes slots", thriftGeneric),
 				use("CHILDRESET", "a slot that is not re-scanned loses the children of its previous value", thriftGeneric),
 				use("PROBEWRAP", "hash probing wraps the slot pointer with the slot index", thriftGeneric),
@@ -186,6 +196,11 @@ func initProperties() {
 			Decides: "for every function of both protocols, both generic packages and the four converters, in both build configurations: every cursor loop consumes input or leaves (LOOPPROGRESS), no input-derived count sizes an allocation unbounded (ALLOCBOUND), size-guarded functions never get a non-positive size (PANICARG), descriptor lookups on input-derived ids are nil-checked (NILLOOKUP), input-driven recursion carries a depth budget (RECDEPTH), no decoder error is dropped or swallowed (DROPERR, ERRSWALLOW).",
 			NotDec:  "out-of-bounds reads through unsafe in general (only the scalar casts of thrift/generic are tied to the node length, RAWWIDTH; header peeks of iterators and of the protobuf side need value ranges), panics inside sonic or the native blob, wall-clock bounds.",
 			Uses: uses(
+				use("KNOWNNILARG", "no nil probe result is passed on as a value", nil),
+				use("DEPTHBUDGET", "the recursion budget is decremented once per level", nil),
+				use("RESULTUSED", "a re-allocated buffer is not dropped", nil),
+				use("COPYZERO", "no copy into a zero-length destination", nil),
+				use("HEADERKIND", "no slice with len > cap, no string read through a slice header", nil),
 				use("ROOTSTRUCTNIL", "a non-struct root descriptor is not dereferenced as a struct", nil),
 				use("RAWWIDTH", "scalar casts of a generic node are bounded by the node's length", nil),
 				use("PREFIXBOUND", "a decoded length is compared with the bytes after its prefix", nil),
@@ -227,6 +242,8 @@ func initProperties() {
 			Decides: "unknown field numbers in the message cannot crash reads (NILLOOKUP over proto/generic), kind/wire-type/packedness tables match the protobuf spec (KINDTABLE — they drive every skip), errors propagate (DROPERR, ERRSWALLOW), search loops consume (LOOPPROGRESS), unknown fields are skipped (UNKNOWNSKIP).",
 			NotDec:  "positions/values, packed/unpacked boundaries, empty sub-messages.",
 			Uses: uses(
+				use("NEXTSTOREBACK", "a refill stores the children back on every success path", protoGeneric),
+				use("TAGPOS", "locators hand out tag positions", nil),
 				use("TYPESWITCHAGREE", "unhashable map keys are boxed before use", protoGeneric),
 				use("DUALEXIT", "index == element count is not-found, not the bytes after the list", protoGeneric),
 				use("PREFIXBOUND", "a decoded length is compared with the bytes after its prefix", nil),
@@ -268,6 +285,7 @@ func initProperties() {
 			Decides: "balanced JSON on every success path of p2j (JSONPAIR), every legal map-key kind is quoted (MAPKEYQUOTE), unsigned kinds are not routed through a signed formatter (SIGNCONV), the kind switch covers the 15 scalar kinds + MESSAGE (KINDEXH), list/map loops consume and stop on errors (LOOPPROGRESS, DROPERR), unknown = error iff disallowed (NEGPOLARITY).",
 			NotDec:  "float exactness, comma placement.",
 			Uses: uses(
+				use("KEYSRC", "object members are keyed by the JSON name at every nesting level", inPkgs("conv/p2j")),
 				use("OPTPRESENCE", "[packed = false] is read only where the option is present", nil),
 				use("KINDNAME", "each kind's clause calls the primitive named after that kind (signedness / width)", nil),
 				use("UNKNOWNBREAK", "an unknown field does not end the field loop", inPkgs("conv/p2j")),
@@ -294,6 +312,7 @@ func initProperties() {
 			Decides: "the visitor's kind switches accept every kind the spec allows for a JSON number/string/bool and map key (KINDEXH), per-kind writer primitives match the spec (RWPAIR), tags use real wire types and map entries use field numbers 1/2 (TAGTYPE, MAPTAG), parse errors are not blanked (DROPERR), unknown = error iff disallowed (NEGPOLARITY).",
 			NotDec:  "speculative-length shifting at 127/128/16383 (value-level; pairing across sonic callbacks is dynamic), range checks.",
 			Uses: uses(
+				use("RESULTUSED", "the buffer returned by FinishSpeculativeLength is kept", inPkgs("conv/j2p", "proto/binary")),
 				use("KINDNAME", "each kind's clause calls the primitive named after that kind (signedness / width)", nil),
 				use("KINDEXH", "kinds accepted", inPkgs("conv/j2p")),
 				use("RWPAIR", "writer primitives per kind", nil),
@@ -321,6 +340,10 @@ func initProperties() {
 			Decides: "inserted tags carry a real wire type and map entries key=1/value=2 (TAGTYPE, MAPTAG), speculative lengths are finished on every path of PathNode.marshal (SPECLENPAIR), name->number translation is nil-checked (NILLOOKUP), insertion/tag errors propagate (DROPERR), the delete locator has a not-found exit (NOTFOUNDEXIT).",
 			NotDec:  "updateByteLen ancestor-length arithmetic.",
 			Uses: uses(
+				use("COPYZERO", "SetMany's scratch copy really copies", protoGeneric),
+				use("RESULTUSED", "a re-allocated buffer is not dropped", anyOf(protoGeneric, protoBinary)),
+				use("ENTRYLEN", "an edit inside a map value re-writes the map entry's length prefix", nil),
+				use("TAGPOS", "positions recorded for the length fix-up are tag positions", nil),
 				use("CHILDRESET", "a slot that is not re-scanned loses the children of its previous value", protoGeneric),
 				use("INDEXLOWER", "a negative element index is rejected by lookups and editors", protoGeneric),
 				use("DUALEXIT", "index == element count is not-found, not the bytes after the list", protoGeneric),
@@ -350,6 +373,7 @@ func initProperties() {
 			Decides: "every success return of thrift marshalTo has consumed from the source and produced output (MUSTCONSUME: identical descriptors must copy, not drop), headers precede elements (HDRFIRST), proto marshalTo finishes its lengths and propagates nested errors (SPECLENPAIR, DROPERR), unknown fields are skipped/rejected per option (UNKNOWNSKIP, NEGPOLARITY), lookups checked (NILLOOKUP), recursion bounded (RECDEPTH), MarshalTo copies out of the pooled buffer (POOLESCAPE).",
 			NotDec:  "that the output is exactly the projection.",
 			Uses: uses(
+				use("DEFAULTARM", "a missing required field stays an error whether or not it has a default", thriftPkg),
 				use("UNKNOWNBREAK", "an unknown field does not end the field loop", anyOf(thriftGeneric, protoGeneric)),
 				use("MUSTCONSUME", "copy, never drop", nil),
 				use("BMSET", "written fields are recorded in the requires bitmap", thriftGeneric),
@@ -385,6 +409,7 @@ func initProperties() {
 			Decides: "every kind one direction emits as a JSON number/string/bool is accepted from that JSON kind by the inverse direction (KINDINV), both directions use the same key accessor (KEYSRC).",
 			NotDec:  "everything numeric (precision, sign of zero), string quoting, base64.",
 			Uses: uses(
+				use("RESULTUSED", "a re-allocated buffer is not dropped", nil),
 				use("KINDINV", "emitted kinds accepted", nil),
 				use("KEYSRC", "same keys both ways", nil),
 				use("NATIVEQUOTE", "string escaper retry contract", nil),
@@ -395,6 +420,8 @@ func initProperties() {
 			Decides: "every name map that is filled is built (BUILDPAIR: without Build every key lookup returns nil), trie/hash Set and Get derive slots through the same helper (SEQAGREE), descriptors are not written after parsing (DESCIMMUT).",
 			NotDec:  "fidelity to the IDL, default values, requiredness under options, the native trie_get/hm_get twins, adversarial keys.",
 			Uses: uses(
+				use("KNOWNNILARG", "the name index is not filled with nil probe results", inPkgs("internal/util", "internal/caching", "thrift")),
+				use("DEFAULTLIT", "every literal kind the grammar allows for a field type yields a default", nil),
 				use("PROBEWRAP", "hash probing wraps the slot pointer with the slot index", inPkgs("internal/caching")),
 				use("IDUPPERCONST", "the shared id table has no protocol-specific upper bound", nil),
 				use("BUILDPAIR", "maps built", inPkgs("thrift", "internal/util")),
@@ -418,6 +445,7 @@ func initProperties() {
 			Decides: "the compiling cache is keyed injectively (CACHEKEY: message types sharing a simple name get distinct descriptors), kind/wire/packedness tables match the spec (KINDTABLE), name maps are built (BUILDPAIR).",
 			NotDec:  "field-by-field fidelity, streaming flags.",
 			Uses: uses(
+				use("KNOWNNILARG", "the name index is not filled with nil probe results", inPkgs("internal/util", "internal/caching", "proto")),
 				use("OPTPRESENCE", "[packed = false] is read only where the option is present", nil),
 				use("IDUPPERCONST", "the shared id table has no protocol-specific upper bound", nil),
 				use("CACHEKEY", "descriptor identity", nil),
@@ -435,6 +463,9 @@ func initProperties() {
 			Decides: "each write/disallow option reaches its own flag bit with the documented polarity (FLAGSYNC), options reach the matching parameter of HandleRequires/CheckRequires/EncodeText/ReadAnyWithDesc (ARGSWAP), an unknown member is an error exactly when disallowed and is otherwise skipped (NEGPOLARITY, UNKNOWNSKIP), unset fields are written under the same key as present ones (KEYSRC), the descriptor's requires bitmap is only copied, never written (DESCIMMUT).",
 			NotDec:  "the truth table itself under dirty bitmaps and ids > 64/256.",
 			Uses: uses(
+				use("ARGAGREE", "every fallback look-up of a field uses the same key accessor", nil),
+				use("DEFAULTARM", "an IDL default matters for optional fields only", thriftPkg),
+				use("DEFAULTLIT", "every literal kind the grammar allows for a field type yields a default", nil),
 				use("UNKNOWNBREAK", "an unknown field does not end the field loop", nil),
 				use("FLAGSYNC", "option -> flag", nil),
 				use("ARGSWAP", "option -> parameter", nil),
@@ -451,6 +482,8 @@ func initProperties() {
 			Decides: "each annotation key maps to the type whose Request/Response calls the getter/setter of its declared source (ANNOTABLE), the first listed source with a value wins (FIRSTWINS), HTTPConv really enables mapping before flags are computed (FLAGSYNC), fallback options reach the right parameters (ARGSWAP), mapping errors are not dropped (DROPERR).",
 			NotDec:  "precedence/fallback decision table, field-cache replay in the native converter.",
 			Uses: uses(
+				use("ARGAGREE", "every HTTP look-up of a field uses the same key accessor", nil),
+				use("CACHERET", "the body-member cache returns what it stored", nil),
 				use("BODYNIL", "a request without a body is an empty body, not a nil dereference", nil),
 				use("ANNOTABLE", "annotation -> source", nil),
 				use("BMSET", "http-mapped fields are recorded in the requires bitmap", inPkgs("conv/j2t", "conv/t2j")),
@@ -471,6 +504,7 @@ func initProperties() {
 			Decides: "every native stub is bound in all three SIMD flavours with identical key sets and each flavour loads its own text (STUBTABLE), native and portable files are selected by exactly complementary build constraints (TAGPARTITION), the portable converter reads the options the native flags carry (OPTAGREE) and rejects kind mismatches on every path (CASEEXIT), native skip failure is an error like Go skip (NATIVERET).",
 			NotDec:  "agreement of outputs, text-encoder exactness (opaque blob).",
 			Uses: uses(
+				use("TRUNCALLPATHS", "the native field cache is emptied on every success exit of the fallback handler", nil),
 				use("STUBTABLE", "flavour tables", nil),
 				use("CURSORREL", "native skip result is added to the cursor", thriftPkg),
 				use("UNDOMARK", "portable converter removes null entries completely, as the native one does", inPkgs("conv/j2t")),
@@ -488,6 +522,9 @@ func initProperties() {
 			Decides: "skip width = read width = write width per fixed-size type (WIDTHTABLE), container/field headers precede elements in the generic writers (HDRFIRST), structs are closed with STOP (STRUCTPAIR), casted values are the ones written (CASTUSED), precomputed header/footer issue the same writer sequence as WrapBinaryBody (SEQAGREE), type switches exhaustive (KINDEXH), counts bounded (ALLOCBOUND), no size panics (PANICARG).",
 			NotDec:  "value round-trips.",
 			Uses: uses(
+				use("BOUNDAGREE", "skip accepts a value that ends exactly at the end of the buffer", thriftPkg),
+				use("DEPTHBUDGET", "the skip depth budget counts nesting levels, not elements", thriftPkg),
+				use("HEADERKIND", "byte slices are built through the slice header (len and cap)", thriftPkg),
 				use("PARAMFORWARD", "an option parameter reaches every call of the callee it is forwarded to (copyString covers keys and values)", nil),
 				use("WIDTHTABLE", "widths agree", nil),
 				use("CLAUSEWIDTH", "fixed-width clauses use the label's width", thriftPkg),
